@@ -488,6 +488,12 @@ func (env *SpecEnv) ident(name string) *Value {
 	// local variable (loop invariants)
 	if env.frame != nil {
 		if a := env.frame.localByName(name, env.hdr); a != nil {
+			if a.Heap {
+				// escaping variable: its cell is a heap object
+				if pv := env.frame.vals[a]; pv != nil {
+					return env.x.Load(env.st, env.x.ptrOf(pv))
+				}
+			}
 			return env.x.Load(env.st, &Ptr{Local: a, RootT: derefT(a.Type())})
 		}
 	}
@@ -1028,6 +1034,15 @@ func (env *SpecEnv) call(n *ECall) *Value {
 		return mkInt(v.C[0])
 	case "content":
 		return env.eval(n.Args[0])
+	case "statictype":
+		// statictype(x, "T"): is the static Go type of x (at this instantiation) T? decided at translation time
+		v := env.eval(n.Args[0])
+		ts, ok := n.Args[1].(*EStr)
+		if !ok || v.T == nil {
+			return mkBool(TFalse)
+		}
+		t := x.eng.findType(ts.V)
+		return mkBool(BoolLit(t != nil && types.Identical(types.Unalias(v.T), t)))
 	case "zeros":
 		n0 := env.asInt(env.eval(n.Args[0]))
 		return seqVal(&SeqV{Len: n0, At: func(i Term) Term { return IntLit(0) }})
